@@ -307,6 +307,15 @@ def run_shard(prop: str, tier: str, seed: int, shard: int, nshards: int, out: st
     import hypothesis
     from hypothesis import HealthCheck, Phase, given, settings
 
+    cov = None
+    if os.environ.get("VERIF_COVERAGE"):
+        # measurement aid (tools/coverage_report.py), never part of a registered command: which
+        # lines of optuna the generated cases reach.  COVERAGE_CORE=sysmon is set by the tool so
+        # that the scheduler's sys.settrace and the measurement do not displace each other.
+        import coverage
+
+        cov = coverage.Coverage(data_file=os.path.join(os.environ["VERIF_COVERAGE"], f".coverage.{prop}.{shard}"), include=[os.path.join(REPO, "optuna", "*")])
+        cov.start()
     mod = _load(prop)
     ctx = Ctx(prop, tier, seed, shard, nshards)
     ctx.scratch = tempfile.mkdtemp(prefix=f"verif-{prop}-{shard}-", dir=scratch_root())
@@ -314,6 +323,7 @@ def run_shard(prop: str, tier: str, seed: int, shard: int, nshards: int, out: st
     only = os.environ.get("VERIF_ONLY")
     scale = float(os.environ.get("VERIF_SCALE", "1"))
     try:
+        _replay_corpus(mod, prop, ctx, shard, nshards, only, result)
         for e in getattr(mod, "ENUMS", []):
             if only and e.name not in only.split(","):
                 continue
@@ -400,6 +410,9 @@ def run_shard(prop: str, tier: str, seed: int, shard: int, nshards: int, out: st
         except Exception:
             pass
         shutil.rmtree(ctx.scratch, ignore_errors=True)
+        if cov is not None:
+            cov.stop()
+            cov.save()
     result.update(
         evaluations=ctx.evaluations,
         fps=sorted(ctx.fps),
@@ -414,6 +427,40 @@ def run_shard(prop: str, tier: str, seed: int, shard: int, nshards: int, out: st
     )
     with open(out, "w") as f:
         json.dump(result, f)
+
+
+def _replay_corpus(mod: Any, prop: str, ctx: "Ctx", shard: int, nshards: int, only: str | None, result: dict[str, Any]) -> None:
+    """The seconds-long replay tier: every saved case under /verif/corpus/<prop>/ (shrunk
+    failing inputs of the repaired defects and of the seeded changes) is run first, through the
+    same run function and oracle as a generated case."""
+    import signal
+
+    d = os.path.join(VERIF, "corpus", prop)
+    if not os.path.isdir(d):
+        return
+    subs = {c.name: c for c in list(mod.CHECKS) + list(getattr(mod, "ENUMS", []))}
+    for i, name in enumerate(sorted(os.listdir(d))):
+        if not name.endswith(".json") or i % nshards != shard:
+            continue
+        path = os.path.join(d, name)
+        with open(path) as f:
+            body = json.load(f)
+        sub = subs.get(body["check"])
+        if sub is None or (only and body["check"] not in only.split(",")):
+            continue
+        ctx.sub = body["check"]
+        fn = getattr(sub, "replay", None) or getattr(mod, "REPLAY", {}).get(sub.name) or sub.run
+        signal.signal(signal.SIGALRM, _alarm)
+        signal.setitimer(signal.ITIMER_REAL, float(getattr(sub, "case_timeout", None) or 90.0))
+        try:
+            fn(dec(body["case"]), ctx)
+            ctx.event("corpus_cases_replayed")
+        except CaseTimeout:
+            ctx.event("corpus_cases_timed_out")
+        except Violation as v:
+            result["violations"].append({"check": body["check"], "sig": v.sig, "msg": f"[saved case {name}] " + v.msg[:2000], "replay": path})
+        finally:
+            signal.setitimer(signal.ITIMER_REAL, 0)
 
 
 class CaseTimeout(BaseException):
@@ -630,7 +677,7 @@ def run_property(prop: str, tier: str, seed: int) -> int:
     for v in violations:
         if v["sig"] in seen_sig:
             # the same signature found by another shard: keep one replay file only
-            if v["replay"] != reported.get(v["sig"]):
+            if v["replay"] != reported.get(v["sig"]) and v["replay"].startswith(os.path.join(VERIF, "replays") + os.sep):
                 try:
                     os.unlink(v["replay"])
                 except OSError:
